@@ -1501,51 +1501,80 @@ func exhaustRule(w *World, r *Report, dfi *FuncInfo) {
 			}
 			return true
 		})
-		be, ok := unparen(fs.Cond).(*ast.BinaryExpr)
-		if !ok || len(children) == 0 {
+		if len(children) == 0 {
 			return true
 		}
-		var small, big ast.Expr
-		strict := true
-		switch be.Op {
-		case token.LSS:
-			small, big = be.X, be.Y
-		case token.GTR:
-			small, big = be.Y, be.X
-		case token.LEQ:
-			small, big, strict = be.X, be.Y, false
-		case token.GEQ:
-			small, big, strict = be.Y, be.X, false
-		default:
+		constOf := func(e ast.Expr) (int64, bool) { return constIntOf(info, e) }
+		// the slack one comparison leaves: how many bytes can remain when it turns false
+		slackOf := func(be *ast.BinaryExpr) (int64, bool) {
+			var small, big ast.Expr
+			strict := true
+			switch be.Op {
+			case token.LSS:
+				small, big = be.X, be.Y
+			case token.GTR:
+				small, big = be.Y, be.X
+			case token.LEQ:
+				small, big, strict = be.X, be.Y, false
+			case token.GEQ:
+				small, big, strict = be.Y, be.X, false
+			default:
+				return 0, false
+			}
+			slack := int64(0)
+			if b, ok := unparen(small).(*ast.BinaryExpr); ok && b.Op == token.ADD {
+				if c, ok := constOf(b.Y); ok {
+					slack += c
+				} else if c, ok := constOf(b.X); ok {
+					slack += c
+				}
+			}
+			if b, ok := unparen(big).(*ast.BinaryExpr); ok && b.Op == token.SUB {
+				if c, ok := constOf(b.Y); ok {
+					slack += c
+				}
+			}
+			// `end - n >= c` / `end - n > c`: the small side is the constant itself
+			if c, ok := constOf(small); ok && c > 0 {
+				if b, ok := unparen(big).(*ast.BinaryExpr); ok && b.Op == token.SUB {
+					if _, isC := constOf(b.Y); !isC {
+						slack += c
+					}
+				}
+			}
+			if !strict {
+				slack-- // n+c <= end  ⇔  n+c-1 < end
+			}
+			return slack, true
+		}
+		// every comparison of a conjunction stops the loop on its own: the one that leaves most decides
+		var cmps []*ast.BinaryExpr
+		var flat func(e ast.Expr)
+		flat = func(e ast.Expr) {
+			if be, ok := unparen(e).(*ast.BinaryExpr); ok {
+				if be.Op == token.LAND {
+					flat(be.X)
+					flat(be.Y)
+					return
+				}
+				cmps = append(cmps, be)
+			}
+		}
+		flat(fs.Cond)
+		slack, any := int64(0), false
+		for _, be := range cmps {
+			if sl, ok := slackOf(be); ok {
+				any = true
+				if sl > slack {
+					slack = sl
+				}
+			}
+		}
+		if !any {
 			return true
 		}
 		li++
 		inst := fmt.Sprintf("loop#%d", li)
-		constOf := func(e ast.Expr) (int64, bool) { return constIntOf(info, e) }
-		slack := int64(0)
-		if b, ok := unparen(small).(*ast.BinaryExpr); ok && b.Op == token.ADD {
-			if c, ok := constOf(b.Y); ok {
-				slack += c
-			} else if c, ok := constOf(b.X); ok {
-				slack += c
-			}
-		}
-		if b, ok := unparen(big).(*ast.BinaryExpr); ok && b.Op == token.SUB {
-			if c, ok := constOf(b.Y); ok {
-				slack += c
-			}
-		}
-		// `end - n >= c` / `end - n > c`: the small side is the constant itself
-		if c, ok := constOf(small); ok && c > 0 {
-			if b, ok := unparen(big).(*ast.BinaryExpr); ok && b.Op == token.SUB {
-				if _, isC := constOf(b.Y); !isC {
-					slack += c
-				}
-			}
-		}
-		if !strict {
-			slack-- // n+c <= end  ⇔  n+c-1 < end
-		}
 		k := int64(1 << 30)
 		for _, ch := range children {
 			m := minInput(w, ch)
